@@ -4,7 +4,7 @@ unchanged, metadata consistent) + M8 failpoint driving the gesvd fallback branch
 import numpy as np
 
 from .. import gen, probe
-from ..drive import call
+from ..drive import call, refused_then_used
 from ..shard import Workload
 from ._common import arm_tt
 from . import ambient
@@ -25,7 +25,7 @@ def make(rng, dmax=5, boundary=False):
     rows, cols, ranks = gen.rand_shape(rng, dmax=dmax, mmax=3, rmax=5, size_cap=8192)
     d = len(rows)
     cplx = gen.rand_cplx(rng)
-    k = int(rng.integers(0, 7))
+    k = int(rng.integers(0, 8))
     if boundary:
         ranks = [int(rng.integers(1, 4))] + ranks[1:-1] + [int(rng.integers(1, 4))]
     if k == 0:
@@ -56,6 +56,23 @@ def make(rng, dmax=5, boundary=False):
                 c[...] = 0
                 c[tuple(int(rng.integers(0, n)) for n in c.shape)] = 1
             kind = 'unit_entries'
+    elif k == 7:
+        # a bond whose two cores are scaled against each other by 2^52..2^70 in ONE rank index (column j of the left core tiny, row j
+        # of the right core huge: the product is an ordinary tensor, exactly the one before the rescaling).  Ranks <= 2: for these
+        # the orthogonal factorisations are accurate column by column whatever the grading
+        ranks = [ranks[0]] + [int(rng.integers(1, 3)) for _ in range(d - 1)] + [ranks[-1]]
+        if boundary:
+            ranks = [min(ranks[0], 2)] + ranks[1:-1] + [min(ranks[-1], 2)]
+        cores = gen.rand_cores(rng, rows, cols, ranks, cplx)
+        cand = [i for i in range(d - 1) if ranks[i + 1] == 2]
+        for i in cand[:1 + int(rng.integers(0, 2))]:
+            e = int(rng.integers(52, 71)) * (1 if rng.random() < 0.5 else -1)
+            j = int(rng.integers(0, 2))
+            cores[i] = np.array(cores[i], copy=True)
+            cores[i + 1] = np.array(cores[i + 1], copy=True)
+            cores[i][:, :, :, j] = cores[i][:, :, :, j] * 2.0 ** (-e)
+            cores[i + 1][j, :, :, :] = cores[i + 1][j, :, :, :] * 2.0 ** e
+        kind = 'bond_scaled_against_itself'
     elif k == 6:
         # entries whose squares leave the normal floating-point range (|x| ~ 1e-162..1e-150 or 1e140..1e152): norms and Gram matrices
         # formed without scaling lose digits or overflow there, LAPACK's scaled routines do not
@@ -68,7 +85,7 @@ def make(rng, dmax=5, boundary=False):
         cores = gen.rand_cores(rng, rows, cols, ranks, cplx)
         gen.apply_scale(cores, rng, float(10 ** rng.uniform(-10, 10)))
         kind = 'scaled'
-    if kind != 'extreme_scale' and rng.random() < 0.15:  # equal-shaped cores are one ndarray object (x (x) x (x) x as TT([x, x, x]), homogeneous chains)
+    if kind not in ('extreme_scale', 'bond_scaled_against_itself') and rng.random() < 0.15:  # equal-shaped cores are one ndarray object (x (x) x (x) x as TT([x, x, x]), homogeneous chains)
         if rng.random() < 0.5 and d > 1:  # make that likely: homogeneous shape
             m, n, r = rows[0], cols[0], int(rng.integers(1, 3))
             cores = gen.rand_cores(rng, [m] * d, [n] * d, [r] * (d + 1), cplx if cplx != 'mixed' else True)
@@ -106,6 +123,23 @@ def w_sweeps(ctx, rng, idx):
         call('TT.ortho_right', f.ortho_right, prop=P, tags=['after_in_place_change_of_earlier_results'])
     if idx < 3:
         ctx.sample({'workload': 'sweeps', 'row_dims': t.row_dims, 'col_dims': t.col_dims, 'ranks': t.ranks, 'kind': kind})
+
+
+def w_refused(ctx, rng, idx):
+    """a sweep called with an inadmissible option value is refused; the caller goes on with the same object (repeats the call with a
+    corrected value): the refusal must have left it the train it was (judged in the wrapper)"""
+    t, kind = make(rng)
+    d = t.order
+    m = ['ortho_left', 'ortho_right', 'ortho'][int(rng.integers(0, 3))]
+    u = int(rng.integers(0, 6))
+    bad_list = [int(rng.integers(1, 4)) for _ in range(d + 1)]
+    bad_list[int(rng.integers(0, d + 1))] = [0, -1, 2.5][int(rng.integers(0, 3))]
+    kw = [{'threshold': -1.0}, {'max_rank': 0}, {'max_rank': -3}, {'max_rank': 2.5}, {'max_rank': bad_list}, {'threshold': -1e-3, 'max_rank': 2}][u]
+    ctx.describe({'op': 'refused sweep, then ordinary use', 'method': m, 'options': {k_: (v if not isinstance(v, list) else list(v)) for k_, v in kw.items()}, 'row': t.row_dims, 'col': t.col_dims, 'ranks': t.ranks, 'kind': kind})
+    a = clone(t)
+    refused_then_used('TT.' + m, getattr(a, m), **kw)
+    call('TT.' + m, getattr(a, m), prop=P, tags=['after_refused_call'])
+    call('TT.ortho_left', a.ortho_left, prop=P, tags=['after_refused_call'])
 
 
 def enum_partial(tier):
@@ -164,6 +198,7 @@ WORKLOADS = [
     Workload('sweeps', w_sweeps, 500, 12000),
     Workload('partial', w_partial, None, None, enum=enum_partial),
     Workload('failpoint', w_failpoint, 60, 2000),
+    Workload('refused', w_refused, 120, 2000),
     ambient.WORKLOAD,
 ]
 REQUIRED = ['C03|failpoint:default_svd_driver_failure_injected', 'C03|TT.ortho_left:value_preserved', 'C03|TT.ortho_right:value_preserved', 'C03|TT.ortho:value_preserved',
